@@ -5,6 +5,7 @@ tensor_map guvectorize functions / TensorMap / point_by_point, plus
 build -> decompose = identity against a harness-built UBI = inv(R.S.B(cell)),
 plus NaN-mask locality for the vectorised versions.
 """
+import contextlib, io
 import numpy as np
 from .. import xtal
 from ..common import rng
@@ -361,6 +362,28 @@ def one_map(run, seed, idx, mods):
     stale = [k for k in names if not np.array_equal(getattr(tm, k), res2[k])]
     if stale or not np.array_equal(tm.UBI, other):
         V("TensorMap:stale-cache", "TensorMap.%s not refreshed after %s" % (",".join(stale) or "UBI", how))
+    # history with other map computations in between: strains and stresses (which work with the REFERENCE cell's B) are
+    # computed on the same object, before or after the orientation maps are first read; U/B/UB/unitcell/mt stay those of
+    # each voxel's own UBI
+    tm3 = tmap.TensorMap(maps={"UBI": masked.copy(), "phase_ids": np.zeros(shp, int)}, phases={0: unitcell.unitcell(cell0)})
+    read_first = bool(idx % 2)
+    if read_first:
+        _ = (tm3.B, tm3.U)
+    Cst = np.diag([200.0, 200.0, 200.0, 80.0, 80.0, 80.0]) + 60.0 * (np.ones((6, 6)) - np.eye(6)) * (np.arange(6)[:, None] < 3) * (np.arange(6)[None, :] < 3)
+    try:
+        with contextlib.redirect_stdout(io.StringIO()):
+            _ = tm3.eps_sample
+            tm3.get_stress(Cst, 0)
+    except Exception as e:
+        run.count("tensormap_stress_history_refused")
+        run.extra.setdefault("tensormap_stress_history_refused", str(e)[:200])
+    else:
+        run.count("tensormap_stress_histories")
+        bad3 = [k for k in names if not np.array_equal(getattr(tm3, k)[~m3], res["masked"][k][~m3])]
+        if bad3:
+            V("TensorMap:after-strain-and-stress", "TensorMap.%s differ from the vectorised functions of the UBI map after "
+              "eps_sample and get_stress were computed on the object (orientation maps read %s)"
+              % (",".join(bad3), "before" if read_first else "only afterwards"))
     # from_ubis: a (NX, NY, 3, 3) array in reconstruction order (X, -Y) becomes a (1, NY, NX) map; voxel (0, j, k)
     # holds recon[k, NY-1-j] (documented by map_index_to_recon), and the derived maps belong to that voxel
     if shp[0] == 1:
